@@ -193,7 +193,10 @@ func (c *Cmd) Wait() error {
 	}
 	return nil
 }
-func (c *Cmd) ExitCode() int                      { return c.Code() }
+func (c *Cmd) ExitCode() int {
+	c.F.event(c, "exit_code", c.Code())
+	return c.Code()
+}
 func (c *Cmd) Pid() int                           { return c.pid }
 func (c *Cmd) StdoutPipe() (io.ReadCloser, error) { return c.outR, nil }
 func (c *Cmd) StderrPipe() (io.ReadCloser, error) { return c.errR, nil }
